@@ -37,7 +37,9 @@ impl RaftIndexInnerManager {
             .await?;
         let meta = file.metadata().await?;
         //log::info!("index file len:{}",meta.len());
-        let (last_applied_log, raft_index) = if meta.len() <= 20 {
+        //8 byte header + an empty record is 9 bytes (10 with the layout of older versions);
+        //anything longer carries state (a term and vote alone are 4 bytes)
+        let (last_applied_log, raft_index) = if meta.len() <= 10 {
             //init write
             let index = RaftIndex::default();
             /*
